@@ -192,7 +192,8 @@ def bellman_form(ctx: Ctx):
                    lhs=show(cu)[:150], rhs=show(ns_call[0])[:150])
         # _period=period
         pk = kw(cu, "_period")
-        ctx.ob("ALG1:period-argument", pk == period_param, where,
+        opaque = pk is None and any(k is None and not (is_term(v) and v[0] == "comp") for k, v in cu[3])  # **something unresolved
+        ctx.ob("ALG1:period-argument", None if opaque else pk == period_param, where,
                "the model functions receive _period = the period this u_and_f was built for" if pk == period_param
                else f"_period is {show(pk) if pk else 'missing'}", lhs=pk if pk else "missing", rhs="period")
         _states_choices(ctx, prog, cu, where, "nonlast")
@@ -212,7 +213,8 @@ def bellman_form(ctx: Ctx):
            if okl and no_cont else "the last-period u_and_f contains a continuation term", lhs=show(rl)[:200])
     if okl:
         pk = kw(rl, "_period")
-        ctx.ob("ALG1:last-period:period-argument", pk == period_param, wherel,
+        opaque = pk is None and any(k is None and not (is_term(v) and v[0] == "comp") for k, v in rl[3])
+        ctx.ob("ALG1:last-period:period-argument", None if opaque else pk == period_param, wherel,
                "_period = period in the last period", lhs=pk if pk else "missing", rhs="period")
         _states_choices(ctx, prog, rl, wherel, "last")
     # beta is read nowhere else
